@@ -102,6 +102,10 @@ def monitor(l, impl_rows, kv):
     cont = [rows[1][1:][i:i + 3] for i in range(0, len(rows[1]) - 1, 3)]
     if [f[0] for f in cont[:2]] != [3, 4]:
         fails.append("container does not start with instance, context")
+    # temporary storage: one ret_tmp field per trait, mandatory traits in name order, then optional traits in name order (the order of the vtable pointers)
+    tmp = [names[f[1]] if 0 <= f[1] < len(names) else "?" for f in cont[2:] if f[0] == 5]
+    if tmp != mand + opt and not fails:
+        fails.append("the container's temporary storage fields are %s, not one per trait in the order of the vtable pointers %s" % (tmp, mand + opt))
     for r in rows[2:]:
         mask = r[0]
         cast, asref, asmut, into, check = r[1:4], r[4:7], r[7:10], r[10:13], r[13:16]
